@@ -1,4 +1,59 @@
-import Emitter.Model.Broker
+/-
+  C07 — Messages are retained and replayed exactly as requested (broker model; any authorizer).
+-/
+import Emitter.Lemmas.Broker
 namespace Emitter.C07
-theorem placeholder : True := trivial
+open Emitter Emitter.Trie Emitter.Security Emitter.Broker
+
+theorem ttl_positive_iff (retain : Bool) (ch : Channel) :
+    ttlOf retain ch > 0 ↔ retain = true ∨ ∃ t, ch.ttl = some t ∧ t > 0 := Broker.ttlOf_pos_iff retain ch
+
+/-- A published message is written to history iff it carries a positive ttl option or the
+retain flag and its key has the store permission; once; under the publisher's contract and
+channel; with the requested ttl (retain = the configured retention). -/
+theorem stored_iff (auth : Auth) (b : B) (name : String) (c : Conn) (qos : UInt8) (retain : Bool)
+    (mid : UInt16) (topic payload : Bytes) (g : Grant)
+    (hc : b.conn? name = some c) (ha : c.alive = true)
+    (hs : (parseChannel (resolve c topic)).ctype = chStatic)
+    (hauth : auth b.banned (parseChannel (resolve c topic)) permWrite = some g) (hx : g.has permExtend = false) :
+    let ch := parseChannel (resolve c topic)
+    let ttl := ttlOf retain ch
+    (step auth b name (.publish qos retain mid topic payload)).1.store =
+      if ttl > 0 ∧ g.has permStore = true then
+        b.store ++ [⟨g.contract :: ch.query, ch.channel, payload, if ttl = Generated.msgRetainedTTL then b.retain else ttl⟩]
+      else b.store :=
+  Broker.store_iff auth b name c qos retain mid topic payload g hc ha hs hauth hx
+
+/-- An accepted subscription with load permission is sent the last N stored matching messages
+before its SUBACK (N from `last`, 1 by default, 0 for none); a client without it is sent none. -/
+theorem replay_exact (auth : Auth) (b : B) (name : String) (c : Conn) (mid : UInt16) (topic : Bytes) (qos : UInt8)
+    (g : Grant) (hc : b.conn? name = some c) (ha : c.alive = true)
+    (hv : (parseChannel (fixTopic topic)).ctype ≠ chInvalid)
+    (hauth : auth b.banned (parseChannel (fixTopic topic)) permRead = some g) (hx : g.has permExtend = false) :
+    let ch := parseChannel (fixTopic topic)
+    let ssid := g.contract :: ch.query
+    let limit : Nat := match ch.last with | some v => v.toNat | none => 1
+    let r := step auth b name (.subscribe mid topic qos)
+    r.1.store = b.store ∧
+    (r.2.filter (fun e => e.1 == name && (match e.2 with | .json _ _ => false | _ => true))) =
+      (if g.has permLoad then (queryStore b ssid limit).map (fun m => (name, Pkt.pub m.channel m.payload)) else [])
+        ++ [(name, .suback mid [qos])] :=
+  Broker.replay_exact auth b name c mid topic qos g hc ha hv hauth hx
+
+/-- "the last N": the N most recently stored messages among those whose ssid has the filter as
+a prefix (contract and first level literal, deeper levels possibly wildcards) -/
+theorem last_n (b : B) (ssid : Path) (limit : Nat) :
+    queryStore b ssid limit = ((b.store.filter (fun m => ssidMatches ssid m.ssid)).reverse.take limit).reverse :=
+  Broker.queryStore_spec b ssid limit
+
+/-- last wills are stored under the same rule (they go through `ttlOf` and the store permission) -/
+theorem will_fires_iff (auth : Auth) (b : B) (c : Conn) :
+    (∃ g, c.hasConnect = true ∧ c.willFlag = true ∧ (parseChannel c.willTopic).ctype = chStatic ∧
+        auth b.banned (parseChannel c.willTopic) permWrite = some g ∧ g.has permExtend = false ∧
+        (lastWill auth b c).2 = deliver (lastWill auth b c).1 (g.contract :: (parseChannel c.willTopic).query) none
+                                  (.pub (parseChannel c.willTopic).channel c.willMessage)) ∨
+    ((¬ ∃ g, c.hasConnect = true ∧ c.willFlag = true ∧ (parseChannel c.willTopic).ctype = chStatic ∧
+        auth b.banned (parseChannel c.willTopic) permWrite = some g ∧ g.has permExtend = false) ∧
+      lastWill auth b c = (b, [])) := Broker.will_fires_iff auth b c
+
 end Emitter.C07
